@@ -1,4 +1,6 @@
-import J5V.Compile.PermProofs
+import J5V.Compile.PermFiles
+import J5V.Compile.CacheProofs
+import J5V.Generated.MaprangeFacts
 /-!
 # C14 — compilation is deterministic
 
@@ -12,7 +14,8 @@ Proved so far:
   (`Package.ResolveType`): with distinct export names, type resolution does not depend on the
   order in which the file source lists the files of a package.
 
-The full statement (`compilePkg` equal for permuted listings) is stated below and not yet proved.
+* the full statement for the file listing: `C14_perm_files` — `compilePkg` of a package is the
+  same for every permutation of its source file listing.
 -/
 namespace J5V.Props.C14
 open J5V.Go J5V.Compile
@@ -84,19 +87,147 @@ theorem C14_convertFile_perm (name : Str) (sums sums' : List Summary')
   | err t => rfl
   | panic w => rfl
 
-/-- full statement (to be proved): compiling a package of a bundle whose file listing is
-permuted gives the same outcome -/
-def PermFilesInvariant : Prop :=
-  ∀ (b : Bundle) (p : Pkg) (files' : List SrcFile) (rest₁ rest₂ : List Pkg),
-    b.pkgs = rest₁ ++ [p] ++ rest₂ → p.files.Perm files' →
-    ∀ fs, compilePkg b p.name = .ok fs →
-      compilePkg { pkgs := rest₁ ++ [{ p with files := files' }] ++ rest₂ } p.name = .ok fs
+/-- **Permuting the file listing.** For every bundle and package that compiles, whose export names
+are distinct across its files and whose generated files have distinct names (true of every valid
+bundle), listing the package's source files in any other order yields the same compiled files —
+same descriptors, in the same (sorted) order. Dependencies may be any packages of the bundle, at
+any depth. (`compilePkg` = `CompilePackage` up to the link step; the link step is a function of
+this result.) -/
+theorem C14_perm_files (b : Bundle) (name : Str) (p : Pkg) (files' : List SrcFile)
+    (hfind : b.find name = some p) (hperm : p.files.Perm files') (l : Loaded)
+    (h : loadPkg b (b.pkgs.length + 1) [] name = .ok l)
+    (hdist : (l.exports.map (·.1)).Nodup) (hnames : (l.files.map (·.name)).Nodup) :
+    compilePkg (b.withFiles name files') name = compilePkg b name :=
+  compilePkg_perm_files b name p files' hfind hperm l h hdist hnames
+
+/-- the sorted list of generated files is the same for any order in which `pkg.Files` (a Go
+map) is ranged over -/
+theorem C14_sorted_files_perm {fs fs' : List FileSkel} (p : fs.Perm fs')
+    (hnd : (fs.map (·.name)).Nodup) : sortFiles fs = sortFiles fs' :=
+  sortFiles_perm p hnd
+
+/-- a package being loaded never reads its own file listing again (cycle check first), so the
+dependencies of the compiled package load identically whatever its own listing order is -/
+theorem C14_deps_independent (b : Bundle) (name : Str) (files' : List SrcFile) (fuel : Nat)
+    (chain : List Str) (d : Str) (h : chain.contains name = true) :
+    loadPkg (b.withFiles name files') fuel chain d = loadPkg b fuel chain d :=
+  loadPkg_withFiles_chain b name files' fuel chain d h
+
+/-- **Call order, fresh vs reused `PackageSet`.** For a bundle whose package dependency graph is
+acyclic (`rankOk`: some rank decreases along every dependency; ranks bounded by the number of
+packages), every `CompilePackage` call of any call sequence — with repeats, in any order, on one
+reused set or on a fresh set per call — returns exactly what compiling that package alone on a
+fresh set returns. The cache (`PackageSet.Packages`) is transparent. -/
+theorem C14_order_calls (b : Bundle) (r : Str → Nat) (hr : rankOk b r = true)
+    (hF : ∀ n, r n < b.pkgs.length + 1) (reuse : Bool) (calls : List Str) :
+    compileCalls b reuse calls [] = calls.map fun n => (n, compileLinked b n) :=
+  compileCalls_agree b r hr hF reuse calls [] (by intro nl h; simp at h)
+
+/-- in particular two call sequences agree on every package they both compile -/
+theorem C14_order_calls_pair (b : Bundle) (r : Str → Nat) (hr : rankOk b r = true)
+    (hF : ∀ n, r n < b.pkgs.length + 1) (reuse₁ reuse₂ : Bool) (calls₁ calls₂ : List Str) (n : Str)
+    (o₁ o₂ : Outcome (List FileSkel))
+    (h₁ : (n, o₁) ∈ compileCalls b reuse₁ calls₁ []) (h₂ : (n, o₂) ∈ compileCalls b reuse₂ calls₂ []) :
+    o₁ = o₂ := by
+  rw [C14_order_calls b r hr hF] at h₁ h₂
+  simp only [List.mem_map, Prod.mk.injEq] at h₁ h₂
+  obtain ⟨_, _, rfl, rfl⟩ := h₁
+  obtain ⟨_, _, rfl, rfl⟩ := h₂
+  rfl
+
+/-- the cache-free loader itself does not depend on fuel or chain (beyond rank) -/
+theorem C14_load_indep (b : Bundle) (r : Str → Nat) (hr : rankOk b r = true)
+    (f f' : Nat) (chain chain' : List Str) (n : Str) (hf : r n < f) (hf' : r n < f')
+    (hc : ∀ c ∈ chain, r n < r c) (hc' : ∀ c ∈ chain', r n < r c) :
+    loadPkg b f chain n = loadPkg b f' chain' n :=
+  loadPkg_indep b r hr f f' chain chain' n hf hf' hc hc'
 
 /-! ## Non-vacuity -/
+
+/-- a two-file package (second file refers to the first) meeting the hypotheses of `C14_perm_files` -/
+def exBundle : Bundle :=
+  { pkgs := [ { name := b!"foo.v1", files :=
+      [ .j5s b!"foo/v1/a.j5s" [] [.object (.mk b!"A" [.mk b!"x" false false (.string [] false)] [] none)],
+        .j5s b!"foo/v1/b.j5s" []
+          [.object (.mk b!"B" [.mk b!"a" false false (.objectRef [] b!"A" false [])] [] none)] ] } ] }
+
+example : (match loadPkg exBundle (exBundle.pkgs.length + 1) [] b!"foo.v1" with
+    | .ok l => decide ((l.exports.map (·.1)).Nodup) && decide ((l.files.map (·.name)).Nodup)
+                && l.files.length == 2
+    | _ => false) = true := by decide
+
+/-- two packages, `bar.v1` importing `foo.v1`: an acyclic bundle with its rank function -/
+def exBundle2 : Bundle :=
+  { pkgs := exBundle.pkgs ++ [ { name := b!"bar.v1", files :=
+      [ .j5s b!"bar/v1/c.j5s" [⟨b!"foo.v1", []⟩]
+          [.object (.mk b!"C" [.mk b!"a" false false (.objectRef b!"foo" b!"A" false [])] [] none)] ] } ] }
+
+def exRank (n : Str) : Nat := if n = b!"bar.v1" then 1 else 0
+
+example : rankOk exBundle2 exRank = true := by decide
+example : ∀ n, exRank n < exBundle2.pkgs.length + 1 := by
+  intro n; unfold exRank; split <;> decide
+example : (compileLinked exBundle2 b!"bar.v1").isOk = true := by decide
 
 example : DistinctExports
     [ { path := b!"a", pkg := b!"p", exports := [(b!"A", ⟨b!"p", b!"A", b!"a", .message false⟩)], depPkgs := [] },
       { path := b!"b", pkg := b!"p", exports := [(b!"B", ⟨b!"p", b!"B", b!"b", .message false⟩)], depPkgs := [] } ] := by
   unfold DistinctExports; decide
+
+end J5V.Props.C14
+
+/-! ## Obligation over facts regenerated from the current source (`extract maprange`, E8)
+
+Every `range` over a Go map, every `maps.Keys/Values` call and every protoreflect `Range`
+callback in the anchored files, classified. A new or re-shaped loop fails the obligation. -/
+namespace J5V.Props.C14
+open J5V.Generated.Maprange
+
+inductive LoopClass where
+  /-- body only writes `m[k] = v` with distinct keys: commutative (`C14_exports_perm`) -/
+  | insertIntoMap
+  /-- collects, then sorts before use (`sortFiles`) -/
+  | collectThenSort
+  /-- result only feeds an error message or a warning, never the output -/
+  | diagnosticOnly
+  /-- loads each dependency and stores it: commutative up to which error is reported first -/
+  | loadAndInsert
+  /-- iteration order defined by protobuf-go (field / extension number order) -/
+  | protobufOrder
+  deriving Repr, DecidableEq
+
+/-- the committed classification of the order-sensitive loops: (file, function, what, shape) ↦ class -/
+def classified : List ((String × String × String × String) × LoopClass) :=
+  [ (("protobuild/packages.go", "Package.includeIO", "range-map summary.Exports", "insert-into-map"), .insertIntoMap),
+    (("protobuild/packages.go", "PackageSet.findFileByPath", "maps.Keys(pkg.Files)", "unsorted-slice"), .diagnosticOnly),
+    (("protobuild/packages.go", "PackageSet.resolveDependencies", "range-map deps",
+        "call:ps.loadPackage+insert-into-map+return"), .loadAndInsert),
+    (("protobuild/packages.go", "PackageSet.CompilePackage", "range-map pkg.Files", "append:filenames:sorted"), .collectThenSort),
+    (("protobuild/linker.go", "markOptionImportsUsed", "callback-range proto.RangeExtensions", "protobuf-defined-order"), .protobufOrder),
+    (("j5convert/summary_walk.go", "SourceSummary", "range-map importMap.vals", "assign+call:ec.WarnPos+call:int+continue"), .diagnosticOnly),
+    (("protoprint/optionreflect/builder.go", "Builder.OptionsFor", "callback-range srcReflect.Range", "protobuf-defined-order"), .protobufOrder),
+    (("protoprint/optionreflect/walk.go", "walkOptionMap", "callback-range mp.Range", "protobuf-defined-order"), .protobufOrder) ]
+
+/-- loops the extractor lists because it cannot resolve the ranged type; all of them range over
+slices (declaration order), checked by reading: (file, function, what) -/
+def sliceRanges : List (String × String × String) :=
+  [ ("protobuild/source_resolver.go", "NewBundleResolver", "range-unknown bundleConfig.Packages"),
+    ("protobuild/source_resolver.go", "newSourceResolver", "range-unknown packages"),
+    ("protobuild/source_resolver.go", "sourceResolver.listPackageFiles", "range-unknown files"),
+    ("protobuild/linker.go", "searchLinker.loadDependencies", "range-unknown desc.Dependency"),
+    ("protobuild/lint.go", "LintFile", "range-unknown pkg.SourceFiles"),
+    ("protobuild/lint.go", "LintAll", "range-unknown allPackages"),
+    ("protobuild/lint.go", "LintAll", "range-unknown pkg.Files"),
+    ("j5convert/builders.go", "fileContext.ensureImport", "range-unknown fb.fdp.Dependency"),
+    ("j5convert/summary_walk.go", "summaryWalker.collectFileRefs", "range-unknown node.Schema.Options"),
+    ("protoprint/protoprint.go", "fileBuffer.p", "range-unknown arg"),
+    ("protoprint/protoprint.go", "fileBuilder.leadingComments", "range-unknown loc.LeadingDetachedComments") ]
+
+/-- **E8**: every loop the extractor reports is either one of the classified order-sensitive loops
+(same shape of body) or one of the known slice ranges; and every classified loop still exists -/
+theorem C14_src_map_ranges_classified :
+    (∀ r ∈ mapRanges, r ∈ classified.map (·.1) ∨ (r.1, r.2.1, r.2.2.1) ∈ sliceRanges) ∧
+    (∀ c ∈ classified, c.1 ∈ mapRanges) := by
+  decide
 
 end J5V.Props.C14
